@@ -81,6 +81,7 @@ fn main() {
                 "exec-pageboundary" => exec::gen_pageboundary(&mut w, thorough, seed),
                 "exec-long" => exec::gen_long(&mut w, thorough, seed),
                 "x86step" => x86step::gen(&mut w, thorough, seed),
+                "clifir" => clifir::gen(&mut w, thorough, seed),
                 _ => { eprintln!("unknown suite {suite}"); std::process::exit(2); }
             }
             w.flush().unwrap();
